@@ -16,6 +16,7 @@ package main
 
 import (
 	"bufio"
+	"encoding/hex"
 	"encoding/json"
 	"fmt"
 	"os"
@@ -51,6 +52,28 @@ type jobResult struct {
 }
 
 var outDir string
+
+// the whole run must end well inside the driver's timeout (timeout_quick 1500 s, timeout_thorough 7200 s)
+var runDeadline time.Time
+
+// procCPU: user+system CPU seconds of a process from /proc/<pid>/stat
+func procCPU(pid int) float64 {
+	b, err := os.ReadFile(fmt.Sprintf("/proc/%d/stat", pid))
+	if err != nil {
+		return 0
+	}
+	s := string(b)
+	if i := strings.LastIndex(s, ")"); i >= 0 {
+		f := strings.Fields(s[i+1:])
+		if len(f) > 13 {
+			u, _ := strconv.ParseFloat(f[11], 64)
+			k, _ := strconv.ParseFloat(f[12], 64)
+			return (u + k) / 100
+		}
+	}
+	return 0
+}
+
 var jobSeq atomic.Int64
 var cpuTotal atomic.Int64
 
@@ -181,6 +204,7 @@ func runJob(j job) jobResult {
 	resume, resumeIdx := 0, 0
 	expensive := map[int]int{}
 	expensiveIdx := map[int][]int{}
+	timeouts := 0
 	for attempt := 0; attempt < 600; attempt++ {
 		// nothing left in the resume case? (known for cases with a fixed number of inputs)
 		for resume < len(j.cases) {
@@ -191,6 +215,14 @@ func runJob(j job) jobResult {
 			break
 		}
 		if resume >= len(j.cases) {
+			return res
+		}
+		if time.Now().After(runDeadline) {
+			for k := resume; k < len(j.cases); k++ {
+				if _, have := res.incon[j.cases[k].ID]; !have {
+					res.incon[j.cases[k].ID] = "watchdog: run budget exhausted before this case"
+				}
+			}
 			return res
 		}
 		sp := childSpec{Mode: j.mode, Cases: j.cases, ResumeCase: resume, ResumeIdx: resumeIdx, ResumeExpensive: expensive[resume], ResumeExpensiveIdx: expensiveIdx[resume], MemKB: j.memKB,
@@ -219,14 +251,48 @@ func runJob(j job) jobResult {
 		done := make(chan error, 1)
 		go func() { done <- cmd.Wait() }()
 		var werr error
-		timedOut := false
-		select {
-		case werr = <-done:
-		case <-time.After(j.wall):
-			timedOut = true
-			cmd.Process.Signal(syscall.SIGKILL)
-			werr = <-done
+		timedOut, stuck := false, false
+		var stuckCPU float64
+		// per-job wall watchdog, cut down to what is left of the budget of the whole run
+		wall := j.wall
+		if left := time.Until(runDeadline); left < wall {
+			wall = left
 		}
+		if wall < 5*time.Second {
+			wall = 5 * time.Second
+		}
+		wallC := time.After(wall)
+		tick := time.NewTicker(2 * time.Second)
+		lastSize, cpuAtProgress := int64(-1), 0.0
+	waitChild:
+		for {
+			select {
+			case werr = <-done:
+				break waitChild
+			case <-wallC:
+				timedOut = true
+				cmd.Process.Signal(syscall.SIGKILL)
+				werr = <-done
+				break waitChild
+			case <-tick.C:
+				// structural witness of a hang outside the child's own per-call CPU watchdog: the child burns CPU
+				// (more than 90 s of it) without beginning a new input
+				size := int64(0)
+				if st, err := os.Stat(sp.Progress); err == nil {
+					size = st.Size()
+				}
+				cpu := procCPU(cmd.Process.Pid)
+				if size != lastSize {
+					lastSize, cpuAtProgress = size, cpu
+				} else if size > 0 && cpu-cpuAtProgress > 90 {
+					stuck, stuckCPU = true, cpu-cpuAtProgress
+					cmd.Process.Signal(syscall.SIGKILL)
+					werr = <-done
+					break waitChild
+				}
+			}
+		}
+		tick.Stop()
 		se.Close()
 		so.Close()
 		if cmd.ProcessState != nil {
@@ -259,8 +325,19 @@ func runJob(j job) jobResult {
 		cs := j.cases[ci]
 		fatalRecorded := len(v) > 0 && v[len(v)-1].Fatal
 		switch {
+		case stuck && j.mode == "live":
+			hexs := payload
+			if strings.HasPrefix(payload, "@") {
+				hexs = "(input in file " + payload[1:] + ")"
+			}
+			res.viols = append(res.viols, vrec{T: "v", Case: cs.ID, Idx: idx, Sig: "node-hang-after-hostile-input", Len: n, Hex: hexs,
+				What: fmt.Sprintf("the process that hosts the node consumed %.0f s of CPU time without getting to the next input after input #%d (%d bytes) was written; killed by the parent", stuckCPU, idx, n)})
+		case stuck:
+			res.incon[cs.ID] = fmt.Sprintf("watchdog: child consumed %.0f s of CPU time outside a monitored call without beginning a new input (input #%d)", stuckCPU, idx)
+			timeouts++
 		case timedOut:
-			res.incon[cs.ID] = fmt.Sprintf("watchdog: child made no end within %v (input #%d)", j.wall, idx)
+			res.incon[cs.ID] = fmt.Sprintf("watchdog: child made no end within %v (input #%d)", wall, idx)
+			timeouts++
 		case fatalRecorded:
 			// the child's own CPU watchdog wrote the violation and left
 		default:
@@ -286,6 +363,9 @@ func runJob(j job) jobResult {
 				resume, resumeIdx = ci, idx+1
 				continue
 			}
+			if raw, herr := hex.DecodeString(payload); herr == nil {
+				sig = friendlySigFor(sig, raw)
+			}
 			hexs := payload
 			if strings.HasPrefix(payload, "@") {
 				hexs = "(input in file " + payload[1:] + ")"
@@ -295,6 +375,15 @@ func runJob(j job) jobResult {
 				Detail: map[string]any{"stderr": excerpt, "stderr_file": stderrPath}})
 		}
 		resume, resumeIdx = ci, idx+1
+		if timeouts >= 2 || time.Now().After(runDeadline) {
+			// do not let a tree that makes every child hang eat the budget of the whole run
+			for k := ci; k < len(j.cases); k++ {
+				if _, have := res.incon[j.cases[k].ID]; !have && (k > ci || knownCount(j.cases[k]) < 0 || resumeIdx < knownCount(j.cases[k])) {
+					res.incon[j.cases[k].ID] = "watchdog: job abandoned after repeated child watchdog expiries / run budget exhausted"
+				}
+			}
+			return res
+		}
 		if !timedOut {
 			expensive[ci]++
 			expensiveIdx[ci] = append(expensiveIdx[ci], idx)
@@ -528,6 +617,7 @@ func main() {
 		}()
 	}
 	t0 := time.Now()
+	runDeadline = t0.Add(time.Duration(hk.Pick(1150, 5400)) * time.Second)
 	for _, j := range jobs {
 		ch <- j
 	}
@@ -655,9 +745,9 @@ func edfJobs() []job {
 	var jobs []job
 	const mem = 1536 << 10    // KiB: directed cases: 1.5 GiB of address space (RLIMIT_AS) on top of what the child has mapped at start
 	const memBulk = 640 << 10 // KiB: bulk cases (inputs below 1 KiB, bound about 68 MiB)
-	wall := 10 * time.Minute
+	wall := time.Duration(hk.Pick(420, 1200)) * time.Second
 	// directed suspicions, one child each (some of them end the child)
-	thoroughOnly := map[string]bool{"array-of-zero-size-nested": true, "array-of-empty-struct-2^32": true, "array-typedesc-1g-uint64": true, "regmap-count-2^28": true}
+	thoroughOnly := map[string]bool{"array-of-empty-struct-nested": true, "array-typedesc-1g-uint64": true, "regmap-count-2^28": true}
 	for i, d := range directedEDF() {
 		if thoroughOnly[d.name] && !hk.Thorough() {
 			continue
